@@ -2,7 +2,7 @@
 //! table as part of their query. If they can't, the query will not be routed.
 
 use async_trait::async_trait;
-use sqlparser::ast::{visit_relations, Statement};
+use sqlparser::ast::{visit_relations, CopySource, ObjectName, Statement};
 
 use crate::{
     errors::Error,
@@ -32,18 +32,44 @@ impl<'a> Plugin for TableAccess<'a> {
 
         let mut found = None;
 
-        visit_relations(ast, |relation| {
-            let relation = relation.to_string();
-            let parts = relation.split('.').collect::<Vec<&str>>();
-            let table_name = parts.last().unwrap();
+        // The table a relation name resolves to: Postgres folds unquoted
+        // identifiers to lower case and takes quoted ones as written.
+        let listed = |relation: &ObjectName| -> Option<String> {
+            let table_name = relation.0.last().map(|ident| match ident.quote_style {
+                Some(_) => ident.value.clone(),
+                None => ident.value.to_lowercase(),
+            })?;
 
-            if self.tables.contains(&table_name.to_string()) {
-                found = Some(table_name.to_string());
-                ControlFlow::<()>::Break(())
+            if self.tables.contains(&table_name) {
+                Some(table_name)
             } else {
-                ControlFlow::<()>::Continue(())
+                None
             }
+        };
+
+        let _ = visit_relations(ast, |relation| match listed(relation) {
+            Some(table_name) => {
+                found = Some(table_name);
+                ControlFlow::<()>::Break(())
+            }
+            None => ControlFlow::<()>::Continue(()),
         });
+
+        // The table of `COPY table TO/FROM` is not reported by `visit_relations`.
+        if found.is_none() {
+            for statement in ast {
+                if let Statement::Copy {
+                    source: CopySource::Table { table_name, .. },
+                    ..
+                } = statement
+                {
+                    if let Some(table_name) = listed(table_name) {
+                        found = Some(table_name);
+                        break;
+                    }
+                }
+            }
+        }
 
         if let Some(found) = found {
             debug!("Blocking access to table \"{}\"", found);
